@@ -253,6 +253,12 @@ func obligationInProp(ob *Obligation, prop string, closure map[string]bool, root
 	if (prop == "C03" || prop == "C14") && ob.Class == "post" {
 		return true
 	}
+	// likewise inside a property's closure: a tagged postcondition of one
+	// function is proved from the postconditions - tagged or not - of the
+	// functions it calls, also when those are roots of the property themselves
+	if ob.Class == "post" && os.Getenv("GOVC_NARROW") == "" {
+		return true
+	}
 	return false
 }
 
@@ -358,6 +364,32 @@ func cmdCheck(args []string) int {
 	var known []knownFinding
 	if data, err := os.ReadFile(filepath.Join(vdir, "known_findings.json")); err == nil {
 		_ = json.Unmarshal(data, &known)
+	}
+	// an open finding is reported under the properties its clause is tagged
+	// with; where the obligation is only part of another property's closure
+	// (helper role) it is left out instead of being reported there as well
+	if *prop != "" {
+		var kept []*Obligation
+		for _, ob := range obs {
+			drop := false
+			for _, k := range known {
+				if k.Status == "open" && k.Obligation == ob.Name {
+					tagged := false
+					for _, p := range ob.Props {
+						if p == *prop {
+							tagged = true
+						}
+					}
+					if !tagged {
+						drop = true
+					}
+				}
+			}
+			if !drop {
+				kept = append(kept, ob)
+			}
+		}
+		obs = kept
 	}
 	for _, ob := range obs {
 		for _, k := range known {
